@@ -416,13 +416,25 @@ def _run_interference(inst):
             return res
         cfg = dict(kind=kind, i_enc=i_enc, i_imp=i_imp, first=s_plain(a), second=s_plain(b), what=inst['what'])
 
+        def strip_act(rec):
+            out_ = []
+            for r_ in rec:
+                if r_ and r_[0] == 'listing':
+                    out_.append(('listing', [(k_, sorted([max(v_, 0) for v_ in row] for row in rows)) for k_, rows in r_[1]] if isinstance(r_[1], list) else r_[1]))
+                elif len(r_) == 5:
+                    out_.append((r_[0], r_[1], r_[2], r_[4]))
+                else:
+                    out_.append(r_)
+            return out_
+
         def check(what, got, ref):
             res['obligations'] += 1
             res['validated'] += 1
             if got != ref:
                 res['status'] = VIOLATION
+                only_act = strip_act(got) == strip_act(ref)  # vectors and matrices agree, activeness does not: C07
                 res['violations'].append(violation_record(
-                    PROP, 'interference', dict(kind=f'interference:{what}', encoder=f'{kind}{i_enc}', variant=inst['what'],
+                    'C07' if only_act else PROP, 'interference', dict(kind=f'interference:{what}', encoder=f'{kind}{i_enc}', variant=inst['what'],
                                                settings=pool.settings_label(b)), cfg, None, diff(got, ref),
                     'the same as on a fresh encoder in a fresh cache', replay_args=dict(check='interference', config=cfg)))
             else:
